@@ -4,5 +4,6 @@ use std::ops;
 use vstd::std_specs::ops::{AddSpec, MulSpec};
 verus! {
 //%% include inc/poly.rs
+//%% include prelude/polylaws.rs
 } // verus!
 fn main() {}
